@@ -721,12 +721,19 @@ def check_modifier_plumbing(ctx):
         ctx.violation(rule, op, 'Optional.__init__ stores %s' % keep, 'the element prototype is not kept', op.node.lineno, clause='g')
 
 
-def check_late_binding(ctx):
-    """(g) B023-style: a lambda / nested def defined in a loop body that reads the loop variable"""
+def check_late_binding(ctx, rule='C08-no-late-binding', clause='g'):
+    """(g) a lambda / nested def created in a loop body that reads a variable the loop rebinds and
+    that outlives the iteration (appended, stored, returned, handed to a constructor): every such
+    closure sees the value of the last iteration.  A closure consumed on the spot (sort key, a
+    direct call) is fine"""
     repo = ctx.repo
-    rule = 'C08-no-late-binding'
     n = 0
+    IMMEDIATE = {'sorted', 'min', 'max', 'sum', 'any', 'all', 'next', 'list', 'tuple', 'set', 'dict', 'reduce', 'functools.reduce'}
     for fi in repo.functions.values():
+        parents = {}
+        for x in ast.walk(fi.node):
+            for c in ast.iter_child_nodes(x):
+                parents[id(c)] = x
         for lp in ast.walk(fi.node):
             if not isinstance(lp, (ast.For, ast.While)):
                 continue
@@ -737,25 +744,57 @@ def check_late_binding(ctx):
                 for x in ast.walk(s):
                     if isinstance(x, ast.Assign):
                         for t in x.targets:
-                            loopvars |= {y.id for y in ast.walk(t) if isinstance(y, ast.Name)}
+                            loopvars |= {y.id for y in ast.walk(t) if isinstance(y, ast.Name) and isinstance(y.ctx, ast.Store)}
             for s in lp.body:
                 for x in ast.walk(s):
-                    if isinstance(x, (ast.Lambda, ast.FunctionDef)):
-                        n += 1
-                        a = x.args
-                        bound = {y.arg for y in a.args + a.kwonlyargs + a.posonlyargs}
-                        if a.vararg: bound.add(a.vararg.arg)
-                        if a.kwarg: bound.add(a.kwarg.arg)
-                        body = x.body if isinstance(x.body, list) else [x.body]
-                        used = {y.id for b in body for y in ast.walk(b) if isinstance(y, ast.Name) and isinstance(y.ctx, ast.Load)}
-                        defaults = {y.id for d in a.defaults for y in ast.walk(d) if isinstance(y, ast.Name)}
-                        late = (used & loopvars) - bound
-                        if late:
-                            # returned / called immediately inside the same iteration is fine only if not stored
-                            ctx.violation(rule, fi, stmt_text(x)[:120], 'a closure created in a loop reads the loop variable(s) %s: every closure sees the last value' % sorted(late), x.lineno, clause='g')
+                    if not isinstance(x, (ast.Lambda, ast.FunctionDef)):
+                        continue
+                    n += 1
+                    a = x.args
+                    bound = {y.arg for y in a.args + a.kwonlyargs + a.posonlyargs}
+                    if a.vararg: bound.add(a.vararg.arg)
+                    if a.kwarg: bound.add(a.kwarg.arg)
+                    body = x.body if isinstance(x.body, list) else [x.body]
+                    assigned = {y.id for b_ in body for y in ast.walk(b_) if isinstance(y, ast.Name) and isinstance(y.ctx, ast.Store)}
+                    used = {y.id for b_ in body for y in ast.walk(b_) if isinstance(y, ast.Name) and isinstance(y.ctx, ast.Load)}
+                    late = (used & loopvars) - bound - assigned
+                    if not late:
+                        continue
+                    # what happens to the closure?
+                    if isinstance(x, ast.FunctionDef):
+                        uses = [y for s2 in lp.body for y in ast.walk(s2) if isinstance(y, ast.Name) and y.id == x.name and isinstance(y.ctx, ast.Load)]
+                        sites = [parents.get(id(y)) for y in uses]
+                    else:
+                        sites = [parents.get(id(x))]
+                        uses = [x]
+                    fate = set()
+                    for y, par in zip(uses, sites):
+                        if isinstance(par, ast.Call) and par.func is y:
+                            fate.add('called')
+                        elif isinstance(par, ast.Call) and isinstance(par.func, ast.Attribute) and par.func.attr in ('append', 'insert', 'add', 'extend', 'setdefault', 'update', 'appendleft'):
+                            fate.add('kept')
+                        elif isinstance(par, ast.Call) and (call_name(par) in IMMEDIATE or (isinstance(par.func, ast.Attribute) and par.func.attr == 'sort')):
+                            fate.add('called')
+                        elif isinstance(par, ast.keyword) and par.arg == 'key':
+                            fate.add('called')
+                        elif isinstance(par, (ast.Return, ast.Yield)):
+                            fate.add('kept')
+                        elif isinstance(par, ast.Assign) and any(isinstance(t, (ast.Attribute, ast.Subscript)) for t in par.targets):
+                            fate.add('kept')
+                        elif isinstance(par, (ast.List, ast.Tuple, ast.Dict)):
+                            fate.add('kept')
+                        else:
+                            fate.add('unknown')
+                    st = stmt_text(x)[:120]
+                    if 'kept' in fate:
+                        ctx.violation(rule, fi, st, 'a closure created in a loop reads %s, which the loop rebinds, and is kept beyond the iteration: every closure made by the loop sees the values of the last iteration' % sorted(late), x.lineno, clause=clause, witness=True)
+                    elif fate == {'called'}:
+                        ctx.holds(rule, fi, st, 'consumed within the iteration that made it', x.lineno, clause=clause)
+                    else:
+                        ctx.undecided(rule, fi, st, 'a closure created in a loop reads %s, which the loop rebinds: cannot see whether it outlives the iteration' % sorted(late), x.lineno, clause=clause)
     ctx.unit('closures_in_loops', n)
     if not any(o.rule == rule for o in ctx.obs):
-        ctx.holds(rule, ('bisturi/', '*'), 'closures defined inside loops: %d' % n, 'none reads a loop variable late', 0, clause='g')
+        ctx.holds(rule, ('bisturi/', '*'), 'closures defined inside loops: %d' % n, 'none reads a loop variable late', 0, clause=clause)
 
 
 def check_evaluation_context(ctx):
